@@ -13,6 +13,7 @@ def main():
     only = sys.argv[sys.argv.index("-o") + 1] if "-o" in sys.argv else None
     dump = "-d" in sys.argv
     tmo = float(sys.argv[sys.argv.index("-t") + 1]) if "-t" in sys.argv else None
+    from . import registry; registry.load()
     cdb = ContractDB("/verif/contracts")
     specs = SpecDB("/verif/contracts/spec")
     import os; repo = Repo(os.environ.get("PYVC_REPO","/repo"))
@@ -41,6 +42,8 @@ def main():
             bad = [r for r in verdicts if r["verdict"] != "proved"]
             tot = sum(r["seconds"] for r in verdicts)
             print(f"   {'OK ' if not bad else 'FAIL'} {name}  [{len(verdicts)} inst, {tot:.2f}s]")
+            if verbose:
+                print("        times:", [(round(r["seconds"],2), r["backend"][:6]) for r in verdicts if r["seconds"] > 0.5])
             for r in bad[:2]:
                 print("        ", r["verdict"], r.get("reason"), str(r.get("model"))[:300])
             if dump and bad:
